@@ -212,9 +212,20 @@ def plan(tier):
     return shards, bounds
 
 
+def warm_up():
+    for wtext in ("1.0: a\n2.0: b\n0.0: c\n", "true: d\nfalse: e\n"):
+        warm = corpus.load(wtext)
+        for ptxt in ("**", "*", "/*"):
+            qrun.query(warm, ptxt, mustexist=True)
+
+
 def run_shard(shard):
     lo, hi = shard
     st = core.Stats(ID)
+    # process history: a document whose keys are floats and booleans equal to
+    # small integers has been listed before (whatever the library remembers
+    # of it must not colour the paths of the documents that follow)
+    warm_up()
     for ci in range(lo, hi):
         spec, plist = CASES[ci]
         text = corpus.render(spec)
@@ -390,6 +401,7 @@ def check_ancestry(doc, nc):
 
 def replay(case):
     st = core.Stats(None)
+    warm_up()
     doc = corpus.load(case["doc"])
     check_query(st, doc, case["doc"], "?", (), case["path"], {})
     for lst in st.fails.values():
